@@ -2,7 +2,7 @@
 """Full build: import every checks/Cxx.py (registers translators), regen, make all, build all models."""
 import os, sys, glob, importlib.util, time
 sys.path.insert(0, os.path.dirname(os.path.abspath(__file__)))
-import vlib
+import vlib, gen_pins
 
 t0 = time.time()
 specs = []
@@ -12,6 +12,7 @@ for p in sorted(glob.glob(os.path.join(vlib.ROOT, 'checks', 'C*.py'))):
     m = importlib.util.module_from_spec(sp)
     sp.loader.exec_module(m)
     specs.append(name)
+    gen_pins.register(name)
 vlib.regen(force=True)
 if '--clean' in sys.argv:
     vlib.coq_prepare()
